@@ -429,6 +429,10 @@ def rule_r6(ctx):
         for st in blk["stmts"]:
             if st["k"] == "assign" and st["place"]["l"] == 0 and not st["place"]["p"] and st["rv"]["k"] == "use":
                 sites.append(("returned register", st["rv"]["op"], st["sp"]))
+    for b, t in body.calls():
+        # `reuse_reg.or_else(..).unwrap_or_else(..)` written straight into the return place
+        if t["dest"]["l"] == 0 and not t["dest"]["p"] and not body.blocks[b]["cleanup"] and t["args"]:
+            sites.append(("returned register", t["args"][0], t["sp"]))
     if (len(sites) < 2) and not res.findings:
         raise AnchorMissing("R6: find_out_reg has no reuse / free sites")
     for what, op, sp in sites:
